@@ -30,7 +30,7 @@ m = {
     "hooks": {
         "guard": "BUIDL_VERIF",
         "enable": "checks export BUIDL_VERIF=1 and import /repo's working tree directly (pure Python, nothing to build); no source hook is needed, randomness/network are stubbed in the harness process",
-        "baseline_off_cmd": "cd /repo && env -u BUIDL_VERIF /venv/bin/python -m pytest -ra -q -p no:cacheprovider --timeout=900 --continue-on-collection-errors -n 16",
+        "baseline_off_cmd": "cd /repo && env -u BUIDL_VERIF /venv/bin/python -m pytest -ra -q -p no:cacheprovider --timeout=900 --continue-on-collection-errors",
         "source_commits": HOOK_COMMITS,
         "add_only": True,
     },
